@@ -542,6 +542,7 @@ package node
 //@   ensures stepOK(result1)
 //@   ensures nodeWrites == old(nodeWrites) || (nodeWrites == old(nodeWrites) + 1 && (r.New || r.Delete))
 //@   ensures r.New == old(r.New) && r.Delete == old(r.Delete) && r.Target == old(r.Target)
+//@   ensures r.Target != nil ==> nonNavChecks == old(nonNavChecks)
 //@   ensures result0 != nil ==> result1 == nil && wfS(result0) && result0.parent == sel && result0.Browser == sel.Browser && result0.Constraints == sel.Constraints && !result0.InsideList
 //@   ensures result0 != nil ==> fresh(result0)
 
@@ -553,6 +554,7 @@ package node
 //@   ensures stepOK(result3)
 //@   ensures nodeWrites == old(nodeWrites) || (nodeWrites == old(nodeWrites) + 1 && (r.New || r.Delete))
 //@   ensures r.New == old(r.New) && r.Delete == old(r.Delete) && r.Target == old(r.Target) && r.First == old(r.First)
+//@   ensures r.Target != nil ==> nonNavChecks == old(nonNavChecks)
 //@   ensures result0 != nil ==> result3 == nil && result0.parent == sel && result0.Browser == sel.Browser && result0.Constraints == sel.Constraints && result0.InsideList
 //@   ensures result0 != nil ==> result0.Node != nil && result0.Path != nil
 //@   ensures result0 != nil ==> result0.Path.Meta != nil
@@ -610,6 +612,7 @@ package node
 //@   mode int
 //@   property C12 C03 C04
 //@   requires editPre(from, to) && m != nil
+//@   check [defaultsOnlyWhenNew] useDefault == ((strategy != editUpdate && new) || e.useDefault)
 //@   assigns open, failed, nodeWrites, writesAfterFail, fieldWrites, fieldPostChecks, nonNavChecks, from.Constraints.compiled, to.Constraints.compiled
 //@   ensures stepOK(result)
 
@@ -646,6 +649,9 @@ package node
 //@   mode int
 //@   property C12 C03
 //@   requires editPre(from, to) && solid(m)
+//@   check [insertCreates] strategy == editInsert && fromChild != nil && !newChild ==> result != nil
+//@   check [updateNeverCreates] strategy == editUpdate ==> !newChild
+//@   check [createIssuesNew] newChild ==> nodeWrites >= old(nodeWrites) + 1
 //@   assigns open, failed, nodeWrites, writesAfterFail, fieldWrites, fieldPostChecks, nonNavChecks, from.Constraints.compiled, to.Constraints.compiled
 //@   ensures stepOK(result)
 
@@ -663,3 +669,18 @@ package node
 //@   trusted
 //@   assigns open, failed, nodeWrites, writesAfterFail, fieldWrites, fieldPostChecks, nonNavChecks, sel.Constraints.compiled
 //@   ensures open == old(open) && ((failed && !old(failed)) ==> result != nil) && (!old(failed) ==> writesAfterFail == old(writesAfterFail))
+
+// ---- C08: Find is pure navigation ---------------------------------------------------------------------------
+// walking a parsed path issues only navigation requests (Target set: read filters do not apply), never creates or
+// deletes, and yields no selection when a step does not exist
+//@ func (sel *Selection) findSlice(segs []*Path) (*Selection, error)
+//@   mode int
+//@   property C08 C13
+//@   requires wfS(sel) && !failed
+//@   requires forall k int :: 0 <= k && k < len(segs) ==> segs[k] != nil && solid(segs[k].Meta) && (len(segs[k].Key) > 0 ==> dyn(segs[k].Meta) == *meta.List)
+//@   loop 1 invariant 0 <= i && i <= len(segs) && wfS(p) && tail != nil
+//@   loop 1 invariant forall k int :: 0 <= k && k < len(segs) ==> segs[k] != nil && solid(segs[k].Meta) && (len(segs[k].Key) > 0 ==> dyn(segs[k].Meta) == *meta.List)
+//@   loop 1 invariant nodeWrites == old(nodeWrites) && nonNavChecks == old(nonNavChecks) && open == old(open) && !failed
+//@   loop 1 decreases len(segs) - i
+//@   ensures nodeWrites == old(nodeWrites) && nonNavChecks == old(nonNavChecks) && open == old(open)
+//@   ensures failed ==> result1 != nil
